@@ -125,6 +125,8 @@ def create_pobs_string(obsl, name, spec='', origin='', symbol=[], enstag=None):
             raise Exception('You try to export dobs to obs!')
         if len(o.deltas.keys()) != nr:
             raise Exception('Incompatible obses in list')
+        if any(n not in o.idl or list(o.idl[n]) != list(obsl[0].idl[n]) for n in names):
+            raise Exception('Incompatible obses in list: all Obs have to be defined on the same configurations')
     od['observables'] = {}
     od['observables']['schema'] = {'name': 'lattobs', 'version': '1.0'}
     od['observables']['origin'] = {
